@@ -147,6 +147,13 @@ Proof.
   reflexivity.
 Qed.
 
+(* with Ring.fixed_D15 on, an edge without delay has m = 0, hence order 0: the kernel guard restricts nothing *)
+Lemma kernel_guard_trivial c : g_no_undelayed_kernel c = true.
+Proof.
+  unfold g_no_undelayed_kernel. apply forallb_forall. intros e _. destruct (gd e) eqn:Ed; [reflexivity|].
+  unfold slot_order, slot_m. rewrite Ed. reflexivity.
+Qed.
+
 (* ---- the order/rate formulas of the specification ---- *)
 Theorem spec_order_rate c e d s : In e (gedges c) -> gd e = Some (d, Some s) ->
   In (Nat.max (Z.to_nat (round_half_even ((d / s) * (d / s)))) (gdde c),
